@@ -87,7 +87,7 @@ def eighth_sphere_lofts(
     shell_2 = Loft(bottom.faces[2], Face([point_du, point_p2u, lpoints["P2"], lpoints["D"]]))
     shell_2.project_side("right", geometry_label, edges=True)
 
-    shell_3 = Loft(shell_1.top_face, left.faces[1])
+    shell_3 = Loft(shell_1.top_face.copy(), left.faces[1])
     shell_3.project_side("right", geometry_label, edges=True)
     lofts += [shell_1, shell_2, shell_3]
 
